@@ -27,7 +27,7 @@ fn main() {
     let t0 = std::time::Instant::now();
     let dt = t0.elapsed().as_nanos();
     println!(
-        "{} heap={:p} stack={:p} wall={} dt={} pid={} tid={} {} urandom={}",
+        "{} heap={:p} stack={:p} wall={} dt={} pid={} tid={} {} urandom={} cpus={}",
         out,
         &*boxed,
         &local,
@@ -43,6 +43,7 @@ fn main() {
             use std::io::Read;
             let mut b = [0u8; 4];
             std::fs::File::open("/dev/urandom").and_then(|mut f| f.read_exact(&mut b)).map(|()| format!("{:02x}{:02x}{:02x}{:02x}", b[0], b[1], b[2], b[3])).unwrap_or_default()
-        }
+        },
+        std::thread::available_parallelism().map_or(0, std::num::NonZero::get)
     );
 }
